@@ -200,6 +200,15 @@ func (pxy *UDPProxy) Run() (remoteAddr string, err error) {
 				}
 				continue
 			}
+			// The proxy may have been closed while the work connection was being fetched (the reader of the
+			// old connection can report its error before Close closes checkCloseCh): do not install a
+			// connection that nobody would close.
+			pxy.mu.Lock()
+			if pxy.isClosed {
+				pxy.mu.Unlock()
+				workConn.Close()
+				return
+			}
 			// close the old workConn and replace it with a new one
 			if pxy.workConn != nil {
 				pxy.workConn.Close()
@@ -210,6 +219,7 @@ func (pxy *UDPProxy) Run() (remoteAddr string, err error) {
 				rwc, err = libio.WithEncryption(rwc, []byte(pxy.serverCfg.Auth.Token))
 				if err != nil {
 					xl.Errorf("create encryption stream error: %v", err)
+					pxy.mu.Unlock()
 					workConn.Close()
 					continue
 				}
@@ -226,6 +236,7 @@ func (pxy *UDPProxy) Run() (remoteAddr string, err error) {
 			}
 
 			pxy.workConn = netpkg.WrapReadWriteCloserToConn(rwc, workConn)
+			pxy.mu.Unlock()
 			ctx, cancel := context.WithCancel(context.Background())
 			go workConnReaderFn(pxy.workConn)
 			go workConnSenderFn(pxy.workConn, ctx)
